@@ -3209,6 +3209,7 @@ static int get_more_chars(struct scanner_s *scanner) {
         while (lead) {
             ptrdiff_t length;
 
+            nread -= 1; /* this CRLF will be converted to just LF */
             trail = ++lead;  /* trail points to the LF of the latest-read CRLF terminator */
             do {
                 assert(lead <= bound);
@@ -3219,7 +3220,6 @@ static int get_more_chars(struct scanner_s *scanner) {
                     break;
                 } else if ((lead + 1 < bound) && (*(lead + 1) == UCHAR_NL)) {
                     /* end of CRLF-terminated line */
-                    nread -= 1; /* CRLF will be converted to just LF */
                     length = lead - trail;
                     break;
                 } else {
